@@ -904,11 +904,27 @@ def power(a, b):
 
 def sqrt_(a):
     if not isinstance(a, Sym):
-        return math.sqrt(pynum(a))
+        v = pynum(a)
+        c0 = ctx()
+        if c0 is None or c0.concrete or v < 0 or not getattr(c0, "exact_surds", False):
+            return math.sqrt(v)
+        r = math.sqrt(v)
+        if r == int(r) or (v != 0 and 1 / r == int(1 / r) and (1 / r) ** 2 == 1 / v):
+            return r                      # exact roots stay numbers
+        from fractions import Fraction
+        a = Sym(z3.RealVal(str(Fraction(v).limit_denominator(10 ** 9)) if v != int(v) else int(v)))
     c = ctx()
     key = ("sqrt", eid(a.e))
     if key in c.uf_cache:
         return c.uf_cache[key]
+    # sqrt(k * t) = sqrt(k) sqrt(t) for a positive rational constant k: one surd per constant and one per term
+    ae = z3.simplify(a.e) if getattr(c, "exact_surds", False) else a.e
+    if getattr(c, "exact_surds", False) and z3.is_app(ae) and ae.decl().kind() == z3.Z3_OP_MUL and len(ae.children()) == 2 \
+            and z3.is_rational_value(ae.arg(0)) and ae.arg(0).as_fraction() > 0 and not z3.is_rational_value(ae.arg(1)):
+        fr = ae.arg(0).as_fraction()
+        r = mul(sqrt_(float(fr) if fr.denominator != 1 else int(fr)), sqrt_(Sym(ae.arg(1))))
+        c.uf_cache[key] = r
+        return r
     e = uf("sqrt", a)
     # defining axioms (argument assumed >= 0; recorded for the `defined` obligations)
     c.trace.append(("sqrt_arg", a.e))
